@@ -65,7 +65,26 @@ def roots(b, local):
     return out
 
 
+def t4_nonce_sequence_is_one_per_key(ctx):
+    """T4: reordering, duplicating or swapping sealed units is detected only because every unit of a direction is opened under the next value of
+    ONE counter. Two cipher states under one derived subkey (C12 N6 re-evaluated) give two units the same (key, nonce): either can be presented
+    in the other's place and still authenticates."""
+    from . import c12
+    from ..engine import Ctx
+    sub = Ctx(ctx.prog, "C12", ctx.tier)
+    bodies = [b for b in ctx.prog.prod_bodies() if "::_" not in b.defp]
+    c12.n6_one_nonce_sequence_per_subkey(sub, ctx.prog, bodies)
+    n = 0
+    for o in sub.obs:
+        n += 1
+        parts = o.key.split("|")
+        ctx.ob("T4", parts[1], parts[2], o.where, o.ok, o.detail)
+    for (r, w, e, f) in sub.floors:
+        ctx.floor("T4", w, e, f)
+
+
 def run(ctx):
+    t4_nonce_sequence_is_one_per_key(ctx)
     t1f_no_step_without_open(ctx)
     prog = ctx.prog
     wrappers = opener_fns(prog)
